@@ -14,7 +14,7 @@ r = sh(f"git -C {wt} apply {src}/patch.diff")
 assert r.returncode == 0, r.stderr
 try:
     t = sh(f"cd {wt} && /venv/bin/python -m pytest -q -p no:cacheprovider -x --deselect tests/test_fakes.py::test_get_result_batches --deselect tests/test_fakes.py::test_get_result_batches_dict 2>&1 | tail -3", env=env)
-    tests_ok = bool(re.search(r"\b196 passed", t.stdout)) and "failed" not in t.stdout
+    tests_ok = bool(re.search(r"\b196 passed", t.stdout)) and not re.search(r"\b\d+ (failed|error)", t.stdout)
     d1 = sh(f"cd {src} && /venv/bin/python demo.py", env=env, timeout=600)
     t0 = time.time()
     c = sh(f"cd /verif && /venv/bin/python checks/run.py {pid} --tier quick", env=dict(os.environ, VERIF_REPO=str(wt)), timeout=3600)
